@@ -367,8 +367,12 @@ def run_case(case):
 
 
 def run(ctx):
-    ctx.explore(run_case, wb_cases(ctx.tier), chunksize=8, label='workbooks')
-    ctx.explore(run_case, sched_cases(ctx.tier), chunksize=2, label='schedules')
+    # workbooks with whole-column references build 1048576-row arrays (several GB per case on the dictionary path): 4 at a time
+    heavy = lambda c: has_col(c) or (c.get('fixed') and fixed_specs()[c['fixed']].get('slow'))
+    wbs, scs = list(wb_cases(ctx.tier)), list(sched_cases(ctx.tier))
+    ctx.explore(run_case, [c for c in wbs if not heavy(c)], chunksize=8, label='workbooks')
+    ctx.explore(run_case, [c for c in scs if not heavy(c)], chunksize=2, label='schedules')
+    ctx.explore(run_case, [c for c in wbs + scs if heavy(c)], chunksize=1, label='whole_column_workbooks', nproc=4)
     # free-running hash seeds (separate processes, no seams)
     from mc.core import pmap
     seeds = list(range(8 if ctx.tier == 'quick' else 32))
